@@ -4,7 +4,9 @@ CONSTANTS
   MaxExtra = 2
   AttrModes <- ModesQuick
   VarNone = FALSE
+  ReqVersions <- ReqQuick
 INVARIANT Mirror
 INVARIANT DynAgrees
 INVARIANT TrimInv
+INVARIANT TransMirror
 CHECK_DEADLOCK FALSE
